@@ -130,8 +130,14 @@ type run struct {
 	cfg  Cfg
 	rng  *mrand.Rand
 	prev map[string]*prev
+	sent map[string]sentHello // auth clients already sent, by abstract record: a `replay` client re-sends the identical ClientHello ALPN list
 	gen  int            // number of root promotions so far (a reinitialisation counts two: both roots replaced)
 	ngen map[string]int // generation under which each identity's current certificates were issued
+}
+
+type sentHello struct {
+	protos []string
+	cert   *tls.Certificate
 }
 
 // kind of a certificate set issued under generation g: fresh (current pair), old (the pair before the last
@@ -243,7 +249,7 @@ func Run(bh Behaviour, seed int64) ([]Line, error) {
 	}
 	defer srv.Close()
 	srv.W.Rec.NidEmptyOK = bh.Cfg.Nide
-	r := &run{srv: srv, cfg: bh.Cfg, prev: map[string]*prev{}, ngen: map[string]int{}, rng: mrand.New(mrand.NewSource(world.Uint64Seed(seed, "hsd/"+bh.Id)))}
+	r := &run{srv: srv, cfg: bh.Cfg, prev: map[string]*prev{}, ngen: map[string]int{}, sent: map[string]sentHello{}, rng: mrand.New(mrand.NewSource(world.Uint64Seed(seed, "hsd/"+bh.Id)))}
 	cfgMap := map[string]any{"nidl": bh.Cfg.Nidl, "base": bh.Cfg.Base}
 	var lines []Line
 	for i, op := range bh.Ops {
@@ -493,7 +499,24 @@ func (r *run) connect(op map[string]any, ln *Line) {
 		case "bogus":
 			c.Nid = "N-nobody"
 		}
-		res, cerr := srv.Connect(c)
+		// a `replay` client presents, byte for byte, the request (same nonce, same signatures) an identical earlier client sent
+		key := fmt.Sprint(c.Kind, c.K, c.Ck, c.Chain, c.Priv, c.Nsig, c.St, c.Skip, c.Nid, c.Pref, c.Cn)
+		var res hs.AcceptResult
+		var cerr string
+		if prevSent, ok := r.sent[key]; ok && b(op, "replay") {
+			res, cerr = srv.Exchange(prevSent.protos, prevSent.cert)
+		} else if c.Kind == "auth" {
+			protos, _, perr := srv.BuildAuthProtos(c)
+			cert, cerr2 := srv.ClientCert(c)
+			if perr != nil || cerr2 != nil {
+				ln.Res = "harness-error"
+				return
+			}
+			r.sent[key] = sentHello{protos, cert}
+			res, cerr = srv.Exchange(protos, cert)
+		} else {
+			res, cerr = srv.Connect(c)
+		}
 		r.record(ln, res)
 		ln.Obs.ClientErr = cerr
 		ln.Res = res.Kind
